@@ -7,12 +7,15 @@ SEED="$(cd "$1" && pwd)"; shift
 WT="$(mktemp -d /tmp/confirm_XXXXXX)"; rmdir "$WT"
 git -C /repo worktree add -q --detach "$WT" HEAD || exit 3
 cp /repo/src/basilisp/_lang.abi3.so "$WT/src/basilisp/" 2>/dev/null
-run_demo() { (cd "$WT" && PYTHONPATH="$WT/src" timeout 300 /venv/bin/python "$SEED/demo.py" 2>&1 | grep -v "WARNING conda" | tail -3; ); (cd "$WT" && PYTHONPATH="$WT/src" timeout 300 /venv/bin/python "$SEED/demo.py" >/dev/null 2>&1; echo "exit=$?"); }
+run_demo() {
+  (cd "$WT" && env -u PYTHONDONTWRITEBYTECODE PYTHONPATH="$WT/src" timeout 900 /venv/bin/python "$SEED/demo.py" > "$WT/.demo_out" 2>&1; echo "exit=$?" >> "$WT/.demo_out")
+  grep -v "WARNING conda" "$WT/.demo_out" | tail -4
+}
 echo "--- demo on unchanged tree"; run_demo
 if ! git -C "$WT" apply "$SEED/patch.diff"; then echo "PATCH DOES NOT APPLY"; git -C /repo worktree remove --force "$WT"; exit 4; fi
 echo "--- demo with patch"; run_demo
 if [ $# -gt 0 ]; then
   echo "--- tests with patch: $*"
-  (cd "$WT" && env -u PYTHONDONTWRITEBYTECODE PYTHONPATH="$WT/src" timeout 1800 /venv/bin/python -m pytest -q -p no:cacheprovider "$@" 2>&1 | tail -2)
+  (cd "$WT" && env -u PYTHONDONTWRITEBYTECODE PYTHONPATH="$WT/src" timeout 3000 /venv/bin/python -m pytest -q -p no:cacheprovider "$@" 2>&1 | tail -2)
 fi
 git -C /repo worktree remove --force "$WT"
